@@ -6,6 +6,50 @@ COMMON_ASSUME = [
 ]
 
 PROPS = {
+    "C01": dict(
+        title="FFT64 negacyclic product is exact within the documented precision budget",
+        module="SpqProofs.Properties.C01",
+        streams=dict(quick=[("md_model", "plain"), ("md_prod", "plain"), ("md_prog", "plain")],
+                     thorough=[("md_model", "plain"), ("md_prod", "plain"), ("md_prog", "plain")]),
+        proved="exact-arithmetic part (product_exact_arith, rows_zero) on the module-level model instantiated with a commutative ring: "
+               "eval_nmul (evaluation at any z with z^N = -1 is multiplicative for the negacyclic coefficient formula, every N, every commutative ring); "
+               "reim_eval (N = 2m real coefficients at z with z^m = i = the m complex numbers a_k + i a_{k+m}); "
+               "small_product_exact (fft64_znx_small_single_product = nmul as integer arrays, every nn = 2m >= 2, both mul flavours) and "
+               "svp_exact / rows_zero (svp_prepare + svp_apply_dft + vec_znx_idft: limb i < min(rsz, asz) = pol * vec_i, all other output limbs exactly zero, "
+               "all limb counts incl. 0, all strides) under the explicit hypotheses H1-H4 on the abstract conversion/FFT pieces (ExactDft) and the dispatch "
+               "invariants (ExactArith: FMA pointwise kernels only when 4 | m); hypotheses shown satisfiable (Gaussian integers, nn = 2)",
+        not_proved="H1-H4 are hypotheses here: H2/H3 (fft = evaluation at points z_j with z_j^m = i, ifft o fft = m) are C06's theorems, H1/H4 (exact "
+                   "conversion, exact division + rounding) are C14's; the floating-point budget (product_budget: error <= E = 8 log2(N) 2^-53 (...)) and hence "
+                   "'result = exact product whenever E < 1/2' for binary64 are not proved (depends on C06 fft_err) - tied by the md_prod oracle "
+                   "(__int128 schoolbook, E + 1/2 test) and the bit-exact md_model stream",
+        level_text="Lean 4 theorems (exact arithmetic, all N, all limb shapes) over the bit-exactly validated module model, conditional on the FFT/conversion "
+                   "specifications H1-H4; rounding budget by differential oracle only (partial)",
+        design_ref="DESIGN.md §5 C01",
+        technique="Lean 4 proof (polynomial evaluation homomorphism, exact ring instance of the polymorphic model) + bit-exact correspondence of the binary64 instance",
+        assumptions=COMMON_ASSUME + ["H1-H4 (ExactDft) for the exact-arithmetic instance: discharged by C06/C14, not in this file",
+                                     "binary64 instance Cfg.parts = real library (md_model stream, bit-exact, both dispatch masks)"],
+    ),
+    "C02": dict(
+        title="Vector-matrix product (VMP) equals the naive polynomial product for all shapes",
+        module="SpqProofs.Properties.C02",
+        streams=dict(quick=[("md_model", "plain"), ("md_vmp", "plain"), ("md_prog", "plain")],
+                     thorough=[("md_model", "plain"), ("md_vmp", "plain"), ("md_prog", "plain")]),
+        proved="vmp_layout (layout_inverse): for ANY fft/fromZnx, in exact arithmetic, vmp_apply_dft_to_dft(vmp_prepare(M)) column j < min(ncols, rsz), "
+               "complex t = sum_{i < min(nrows, asz)} adft_i[t] * fft(M[i][j])[t], columns >= min(ncols, rsz) exactly zero, output size rsz*nn; both prepared "
+               "layouts (nn >= 8: reim4 blocks, column pairs, lone last column, last computed column half of a pair; nn < 8: column-major), both vmpAvx flavours, "
+               "mul/addmul ref and fma, every nrows, ncols, asz, rsz >= 0; vmp_exact: under H1-H4 the inverse DFT of vmp_apply_dft is column j = "
+               "sum_i a_i * M[i][j] in Z[X]/(X^nn+1), other limbs zero; vmp_apply_dft_eq: vmp_apply_dft = vmp_apply_dft_to_dft o vec_znx_dft as arrays for "
+               "any carrier (binary64 included) and any prepared matrix (apply reads only min(nrows, asz) rows)",
+        not_proved="numeric part as C01: H1-H4 are hypotheses (C06/C14), the summed rounding budget over the rows is tied only by the md_vmp oracle "
+                   "(integer matrix-vector product on small operands); scratch-space split of vmp_apply_dft (tmp_space offsets) is not modelled at heap level "
+                   "(C11 sanitizer stream)",
+        level_text="Lean 4 theorems: address arithmetic of prepare/apply for every shape and both layouts (unconditional in exact arithmetic), exact product "
+                   "conditional on H1-H4; bit-exact correspondence of the binary64 instance on shape boxes incl. sizes 0 (partial: rounding budget)",
+        design_ref="DESIGN.md §5 C02",
+        technique="Lean 4 proof (slot-injectivity of the prepared layout, loop invariants over the block/column/row loops) + bit-exact correspondence",
+        assumptions=COMMON_ASSUME + ["H1-H4 (ExactDft) for vmp_exact only; vmp_layout and vmp_apply_dft_eq need no FFT hypothesis",
+                                     "binary64 instance Cfg.parts = real library (md_model stream)"],
+    ),
     "C03": dict(
         title="NTT120 transform is an exact, invertible negacyclic transform on all 64-bit data",
         module="SpqProofs.Properties.C03",
